@@ -41,6 +41,27 @@ type PT struct {
 	Long string `control:"Long-Name9"`
 }
 
+// Stanza / Nested: the raw paragraph embedded one level further down, the way a package that wraps the library's types
+// (struct{ Stanza } with its own extra members) sees it.
+type Stanza struct {
+	control.Paragraph
+	A string `control:"A"`
+}
+
+type Nested struct {
+	Stanza
+	X string `control:"X"`
+}
+
+func (x Nested) nestedView(i int) error {
+	for _, m := range []struct{ key, got string }{{"A", x.A}, {"X", x.X}} {
+		if want := x.Paragraph.Values[m.key]; m.got != want {
+			return fmt.Errorf("element %d: member for %q is %q, its own paragraph says %q", i, m.key, m.got, want)
+		}
+	}
+	return nil
+}
+
 // typedView reports the first member of x that differs from the paragraph x itself carries.
 func (x PT) typedView(i int) error {
 	for _, m := range []struct{ key, got string }{{"A", x.A}, {"B-c", x.Bc}, {"X", x.X}, {"Long-Name9", x.Long}} {
@@ -129,6 +150,42 @@ func readPaths(text string, delivery int) map[string]string {
 			ps = append(ps, x.Paragraph)
 		}
 		return canonParas(ps), nil
+	})
+	guard("unmarshal-nested-embed-slice", func() (string, error) {
+		var l []Nested
+		if err := control.Unmarshal(&l, rd()); err != nil {
+			return "", err
+		}
+		var ps []control.Paragraph
+		for i, x := range l {
+			if err := x.nestedView(i); err != nil {
+				return "", err
+			}
+			ps = append(ps, x.Paragraph)
+		}
+		return canonParas(ps), nil
+	})
+	guard("decoder-nested-embed-loop", func() (string, error) {
+		dec, err := control.NewDecoder(rd(), nil)
+		if err != nil {
+			return "", err
+		}
+		var ps []control.Paragraph
+		for i := 0; i < 100000; i++ {
+			var x Nested
+			err := dec.Decode(&x)
+			if err == io.EOF {
+				return canonParas(ps), nil
+			}
+			if err != nil {
+				return "", err
+			}
+			if err := x.nestedView(i); err != nil {
+				return "", err
+			}
+			ps = append(ps, x.Paragraph)
+		}
+		return "", fmt.Errorf("no end of input after 100000 paragraphs")
 	})
 	guard("decoder-typed-loop", func() (string, error) {
 		dec, err := control.NewDecoder(rd(), nil)
